@@ -274,6 +274,51 @@ def gen_websocket(rng, head):
     return head + "|" + ";".join(interleave(rng, qs, rng.choice([0, 2, 4, 8]), drain(rng, 3, rng.choice([0, 0, 30]))))
 
 
+def ws_wire_frame(payload, op=2, fin=True, key=None):
+    """RFC 6455 frame, as a client (key = 4 masking bytes) or a server (key None) builds it"""
+    n = len(payload)
+    b0 = (0x80 if fin else 0) | op
+    mb = 0x80 if key is not None else 0
+    if n > 65535:
+        h = bytes([b0, mb | 127]) + struct.pack(">Q", n)
+    elif n > 125:
+        h = bytes([b0, mb | 126]) + struct.pack(">H", n)
+    else:
+        h = bytes([b0, mb | n])
+    if key is not None:
+        return h + key + bytes(p ^ key[i % 4] for i, p in enumerate(payload))
+    return h + payload
+
+
+def gen_ws_recv(rng):
+    """a WebSocket SERVER receiver (slave MessageIOGateway) fed client frames built here: random masking keys, the three
+    length forms, fragmented messages (FIN=0 + continuation), pong / close frames in between; corresponded with the model"""
+    def slave(body):
+        return struct.pack("<II", len(body), 1164862256) + body
+    ops = []
+    for _ in range(rng.choice([1, 2, 3])):
+        pl = slave(rand_body(rng, rng.random() < 0.1))
+        key = bytes(rng.randrange(256) for _ in range(4))
+        r = rng.random()
+        if r < 0.55:
+            wire = ws_wire_frame(pl, 2, True, key)
+        elif r < 0.8:
+            cut = rng.randint(1, len(pl) - 1)
+            wire = ws_wire_frame(pl[:cut], 2, False, key) + ws_wire_frame(pl[cut:], 0, True, bytes(rng.randrange(256) for _ in range(4)))
+        elif r < 0.9:
+            wire = ws_wire_frame(b"", 10, True, key) + ws_wire_frame(pl, 2, True, key)
+        elif r < 0.95:
+            wire = ws_wire_frame(pl, 2, True, key) + ws_wire_frame(b"xy", 8, True, key) + ws_wire_frame(pl, 2, True, key)
+        else:   # malformed: reserved bit / unmasked frame to a server / 64-bit size above the 10 MB limit
+            wire = rng.choice([bytes([0xC2, 0x80]) + key, ws_wire_frame(pl, 2, True, None),
+                               bytes([0x82, 0xFF]) + struct.pack(">Q", 10 * 1024 * 1024 + 1) + key])
+        ops.append("x:" + hexs(wire))
+        for _ in range(rng.randint(0, 4)):
+            ops.append(op_i(rng))
+    ops.append("i:%d:%s" % (NOLIM, ",".join([str(NOLIM)] * 30)))
+    return "WR|" + ";".join(ops)
+
+
 def gen_stress(rng):
     """oracle-only: dataio/StressTestParserProxyDataIO between the sender and the scripted transport, as a second,
     independent segmenter (min/max child write sizes in the head; op f = WriteBufferedOutput under a script)"""
@@ -486,7 +531,10 @@ class CHECK(vlib.Check):
                 "C-string handling; RawDataMessageIOGateway.cpp stream sender and both receive modes; "
                 "SLIPFramedDataMessageIOGateway.cpp encoder, decoder and per-call Message assembly. "
                 "Messages are opaque flattened bytes at this level (Message codec: C01). "
-                "Harness oracle only (not modelled): WebSocket framing (post-handshake client/server pair with slave gateway), "
+                "WebSocketMessageIOGateway.cpp after the handshake with MessageIOGateway slaves: CreateReplyFrame, the header/payload "
+                "receive loop, un-masking, fragments, binary/close/continuation/pong frames (corresponded: server->client pair and a "
+                "server receiver fed client frames built by the generator; TEXT/PING frames and the HTTP handshake are not modelled). "
+                "Harness oracle only (not modelled): WebSocket client sender (random masking keys), "
                 "the C mini/micro gateways against the C++ one, zlib under the templating gateway, packet-mode (UDP-style) "
                 "operation of the binary/text/raw gateways, StressTestParserProxyDataIO as second segmenter.")
     premises = ["memory safety and object lifetime of the C++ (observed by ASan/UBSan in the harness only)",
@@ -529,8 +577,10 @@ class CHECK(vlib.Check):
         for j in range(10 if tier == "quick" else 100):
             for head in ("MC", "CM", "UC", "CU"):
                 out.append(("c-gateways-oracle", gen_c_gateway(rng, head)))
-            for head in ("WC", "WS"):
-                out.append(("websocket-oracle", gen_websocket(rng, head)))
+            out.append(("websocket-oracle", gen_websocket(rng, "WC")))
+            for _ in range(3):
+                out.append(("websocket", gen_websocket(rng, "WS")))
+                out.append(("websocket", gen_ws_recv(rng)))
             for _ in range(3):
                 out.append(("stress-proxy-oracle", gen_stress(rng)))
         for j in range(6 if tier == "quick" else 40):
